@@ -22,6 +22,7 @@ uninterp spec fn varint_val(s: Seq<u8>) -> u64;
 
 struct InvalidQStreamId;
 struct InvalidSessionId;
+#[derive(Debug)]
 struct EndOfBuffer;
 
 //@ extract wtransport-proto/src/varint.rs >> struct VarInt
@@ -182,6 +183,16 @@ fn bytes_as_slice(b: &Bytes) -> (r: &[u8])
     unimplemented!()
 }
 
+// `vec![0; n].into_boxed_slice()`, `&mut Box<[u8]>` as `&mut [u8]`, `Bytes::from(Box<[u8]>)`: assumed
+#[verifier::external_body]
+fn zeroed_box(n: usize) -> (r: Box<[u8]>) ensures r@.len() == n { vec![0; n].into_boxed_slice() }
+#[verifier::external_body]
+fn box_as_mut_slice(b: &mut Box<[u8]>) -> (r: &mut [u8])
+    ensures r@ == old(b)@, final(b)@ == final(r)@,
+{ &mut b[..] }
+#[verifier::external_body]
+fn bytes_from_box(b: Box<[u8]>) -> (r: Bytes) ensures r@ == b@ { unimplemented!() }
+
 #[verifier::external_body]
 fn bytes_slice_from(b: &Bytes, offset: usize) -> (r: Bytes)
     requires offset <= b@.len(),
@@ -190,7 +201,29 @@ fn bytes_slice_from(b: &Bytes, offset: usize) -> (r: Bytes)
     unimplemented!()
 }
 
+// the RFC 9297 image of a datagram: varint(quarter stream id) || payload
+uninterp spec fn varint_bytes(v: u64) -> Seq<u8>;
+spec fn dgram_image(qid: u64, payload: Seq<u8>) -> Seq<u8> { varint_bytes(qid) + payload }
+
 impl<'a> Datagram<'a> {
+//@ extract wtransport-proto/src/datagram.rs >> impl<'a> Datagram<'a> >> fn new
+//@ ensures r.qstream_id == qstream_id, r.payload@ == payload@
+//@ end
+
+// contract of the proto encoder as proved on the real function by Kani p_datagram_roundtrip_16
+// (all-or-nothing, exactly write_size bytes == varint(qid) || payload)
+//@ extract wtransport-proto/src/datagram.rs >> impl<'a> Datagram<'a> >> fn write
+//@ bodyless
+//@ nocanary
+//@ attr #[verifier::external_body]
+//@ requires self.qstream_id.wf()
+//@ ensures
+//@ | r is Ok <==> old(buffer)@.len() >= varint_len(self.qstream_id.val()) + self.payload@.len(),
+//@ | r matches Ok(n) ==> n == varint_len(self.qstream_id.val()) + self.payload@.len()
+//@ |     && final(buffer)@.len() == old(buffer)@.len()
+//@ |     && final(buffer)@.subrange(0, n as int) == dgram_image(self.qstream_id.val(), self.payload@),
+//@ end
+
 //@ extract wtransport-proto/src/datagram.rs >> impl<'a> Datagram<'a> >> fn qstream_id
 //@ ensures r == self.qstream_id
 //@ end
@@ -259,6 +292,20 @@ impl DriverDatagram {
 //@ |         && d.session_id.val() == 4 * varint_val(quic_dgram@) && d.session_id.wf(),
 //@ |     Err(e) => e == ErrorCode::Datagram && (!varint_complete(quic_dgram@) || varint_val(quic_dgram@) > QSTREAM_MAX),
 //@ | }
+//@ end
+
+// C03 / C16 (send side): what goes on the wire is exactly varint(session id / 4) || payload - the
+// application's bytes unaltered behind the session's quarter stream id
+//@ extract wtransport/src/datagram.rs >> impl Datagram >> fn write
+//@ rename `H3Datagram::new` => `Datagram::new`
+//@ resub `vec!\[0; ([^\]]*)\]\.into_boxed_slice\(\)` => `zeroed_box(\1)`
+//@ resub `\.write\(&mut buffer\)` => `.write(box_as_mut_slice(&mut buffer))`
+//@ resub `Bytes::from\(buffer\)` => `bytes_from_box(buffer)`
+//@ requires session_id.wf(), payload@.len() <= 0x7fff_ffff_ffff_fff0
+//@ ensures
+//@ | r.quic_dgram@ == dgram_image(session_id.val() / 4, payload@),
+//@ | r.payload_offset == varint_len(session_id.val() / 4),
+//@ | r.session_id == session_id,
 //@ end
 
 //@ extract wtransport/src/datagram.rs >> impl Datagram >> fn payload
